@@ -32,6 +32,9 @@ type Prog struct {
 
 	NumCallSites int
 	infoCache    map[*ssa.Function]*FuncInfo
+	helpers      map[*ssa.Function]helperLink
+	byName       map[string]*ssa.Function
+	factCache    map[*ssa.Function]map[*ssa.BasicBlock]map[Fact]bool
 }
 
 // undecided is raised (as panic) whenever an anchor cannot be resolved or a
@@ -151,6 +154,7 @@ func Load(repo, config string, tests bool) (*Prog, error) {
 	if len(p.Funcs) == 0 {
 		return nil, fmt.Errorf("load: no source functions found")
 	}
+	p.computeTransparency()
 	return p, nil
 }
 
